@@ -49,5 +49,13 @@ Theorem C14_modinfo_attributes_reported :
 Proof. exact mod_parse_table. Qed.
 Print Assumptions C14_modinfo_attributes_reported.
 
+(* ... and by field name: the value of the first attribute with that field *)
+Theorem C14_modinfo_by_field_name :
+  forall (l : list attr) field v,
+    mod_find l field = Some v <->
+    exists pre post, l = pre ++ (field, v) :: post /\ Forall (fun a => fst a <> field) pre.
+Proof. exact mod_find_first. Qed.
+Print Assumptions C14_modinfo_by_field_name.
+
 Example C14_example : arr_enc MSB 4 305419896 = [18; 52; 86; 120].
 Proof. reflexivity. Qed.
